@@ -63,8 +63,34 @@ func x13ParseYAML(s string) map[string]interface{} {
 
 func x13Clone(n interface{}) interface{} { return x13Norm(n) }
 
+// x13Export converts the tree to what the YAML encoder should see: mapping keys that
+// are integers are emitted as integers (map[int]string fields such as TopicMapper's
+// headers would not accept a quoted key).
+func x13Export(n interface{}) interface{} {
+	switch t := n.(type) {
+	case map[string]interface{}:
+		m := make(map[interface{}]interface{}, len(t))
+		for k, val := range t {
+			if i, err := strconv.Atoi(k); err == nil && strconv.Itoa(i) == k {
+				m[i] = x13Export(val)
+			} else {
+				m[k] = x13Export(val)
+			}
+		}
+		return m
+	case []interface{}:
+		l := make([]interface{}, len(t))
+		for i := range t {
+			l[i] = x13Export(t[i])
+		}
+		return l
+	default:
+		return n
+	}
+}
+
 func x13ToYAML(n interface{}) string {
-	b, err := yaml.Marshal(n)
+	b, err := yaml.Marshal(x13Export(n))
 	if err != nil {
 		return fmt.Sprintf("<<marshal error: %v>>", err)
 	}
